@@ -43,13 +43,13 @@ func (P) Engine() string { return "E1+E2" }
 
 func (P) Describe() harness.Description {
 	return harness.Description{
-		MustHit: []string{"first_requests_of_a_value_from_several_callers", "request_without_selected_argument", "capacity_exceeded", "throttled_request_waited"},
+		MustHit: []string{"first_requests_of_a_value_from_several_callers", "request_without_selected_argument", "capacity_exceeded", "throttled_request_waited", "value_dropped_by_the_reference_cache_starts_over", "value_kept_by_the_reference_cache_below_live_values"},
 		Level:   "exploration",
 		Rule: "case = (one hotspot QPS rule: reject or throttling, value selected by index / negative index / attachment key, threshold 0-6, burst 0-3, duration 1-5 s, max queueing 0-3000 ms, specific-item table, parameter capacity default or 1-3; 30-150 requests over a value alphabet of 8 typed values with batches 1-4 and ticks biased to the duration and the pacing interval; Sleep captured at the clock seam). " +
 			"Per (rule,value) while the capacity was never exceeded: reject mode - admitted tokens <= (T+burst)+T*elapsed/D since first seen, <= 2(T+burst) in any window of length D, a value idle for more than D is granted any batch <= T; throttling - consecutive pass times >= floor(b*D/T) ms apart, every requested wait < max queueing time; T_v <= 0 => always rejected; requests without the selected argument are never limited; " +
 			"2-3 callers under the seeded scheduler sending the first requests for a value (8 % of the cases): reject rule at a frozen instant - exactly min(requests, T+burst) admitted; throttling rule with callers that move the clock - the possible pass times of any two admitted requests are not all closer than floor(D/T) ms, waits < max queueing time; " +
-			"independence: every decision (and wait) equals that of a shadow resource with the same rule that only ever receives this value, at the same virtual times. With the capacity exceeded only termination and absence of panics are asserted. non-trivial = at least two values were each both admitted and rejected; distinct = hash(config, ops)",
-		Assumptions: []string{"clock seam is integer milliseconds for hotspot rules: pacing interval rounded down to ms", "a reference LRU is not needed: independence and envelopes are asserted only in runs whose number of distinct values never exceeds the configured capacity"},
+			"independence: every decision (and wait) equals that of a shadow resource with the same rule that only ever receives this value, at the same virtual times. With the capacity exceeded: throttling - only termination and absence of panics; reject mode - the envelopes are asserted against a reference least-recently-used list of the configured capacity (a value the list has dropped starts over, a value it holds has kept its bucket). non-trivial = at least two values were each both admitted and rejected; distinct = hash(config, ops)",
+		Assumptions: []string{"clock seam is integer milliseconds for hotspot rules: pacing interval rounded down to ms", "independence (shadow resource) is asserted only in runs whose number of distinct values never exceeds the configured capacity; below it, reject-mode envelopes follow a reference LRU recency list (single caller: both caches of a rule are touched by every request that reaches the bucket)"},
 		Real:        []string{"api.Entry(WithArgs/WithAttachments)", "core/hotspot (slot, reject and throttling controllers, LRU caches, rule manager)"},
 		Stub:        []string{"util.Clock (virtual clock; Sleep captured)"},
 	}
@@ -273,6 +273,7 @@ func (P) Exec(c *harness.Case) *harness.Outcome {
 	D := uint64(cfg.DSec) * 1000
 	vs := map[interface{}]*vstate{}
 	capExceeded := false
+	var refLRU []interface{} // most recently used first
 	entry := func(step int, res string, b uint32, args []interface{}, attach map[interface{}]interface{}) (bool, uint64, *base.BlockError) {
 		lastSleep = 0
 		var e *base.SentinelEntry
@@ -339,6 +340,34 @@ func (P) Exec(c *harness.Case) *harness.Outcome {
 			if cfg.Throttle {
 				max = T
 			}
+			// Below the number of live values the capacity decides which values keep their bucket. The caches are
+			// documented as least-recently-used ones: a reference recency list of the same capacity (moved by every
+			// request that gets as far as the bucket: threshold > 0, batch <= threshold+burst) says which values
+			// such a cache has dropped. A value it has dropped starts over (its envelopes restart with it, as for a
+			// value never seen); a value it still holds has kept its bucket and stays inside its envelopes.
+			if cfg.Cap > 0 && !cfg.Throttle && T > 0 && int64(b) <= max {
+				at := -1
+				for i, r := range refLRU {
+					if r == v {
+						at = i
+					}
+				}
+				if at < 0 {
+					if st.seen {
+						*st = vstate{nAdm: st.nAdm, nRej: st.nRej}
+						o.Probe("value_dropped_by_the_reference_cache_starts_over")
+					}
+				} else {
+					refLRU = append(refLRU[:at], refLRU[at+1:]...)
+					if capExceeded {
+						o.Probe("value_kept_by_the_reference_cache_below_live_values")
+					}
+				}
+				refLRU = append([]interface{}{v}, refLRU...)
+				if int64(len(refLRU)) > cfg.Cap {
+					refLRU = refLRU[:cfg.Cap]
+				}
+			}
 			// independence: the shadow resource only ever sees this value
 			if !capExceeded {
 				sok, swait, _ := entry(step, shadowOf[v], b, args, attach)
@@ -367,7 +396,7 @@ func (P) Exec(c *harness.Case) *harness.Outcome {
 				}
 				continue
 			}
-			if capExceeded {
+			if capExceeded && cfg.Throttle {
 				continue
 			}
 			if !cfg.Throttle {
